@@ -7,6 +7,8 @@ package cl
 import (
 	"github.com/ohler55/slip"
 	vrt "github.com/ohler55/slip/zzvrt"
+	"runtime"
+	"time"
 )
 
 const (
@@ -122,4 +124,40 @@ func VerifC09Format(n, tilde, k0, k1 int) {
 	class := zzC09Eval(scope, form)
 	vrt.Reach("formatted")
 	zzC09Check(class)
+}
+
+// zzC09Guard runs f (which recovers its own panics) and reports how it ended:
+// 0 it returned; 1 it allocated without bound; 2 (engine only) it reached an
+// allocation of 65..2^31 elements, which the engine does not explore further;
+// 3 it did not finish within its budget.  In the engine this function is an
+// intrinsic (/verif/engine/x_c09.go): budgets are SSA instructions and
+// symbolic decisions, "without bound" means an allocation whose symbolic size
+// can exceed 2^31 elements under the path condition.  Natively (replay of a
+// model) f runs in a goroutine under a watchdog: more than 2 GiB obtained from
+// the system => 1, more than 10 s => 3.
+func zzC09Guard(steps, decisions int, f func()) int {
+	var base runtime.MemStats
+	runtime.ReadMemStats(&base)
+	done := make(chan struct{})
+	go func() {
+		defer close(done)
+		f()
+	}()
+	tick := time.NewTicker(10 * time.Millisecond)
+	defer tick.Stop()
+	deadline := time.After(10 * time.Second)
+	for {
+		select {
+		case <-done:
+			return 0
+		case <-deadline:
+			return 3
+		case <-tick.C:
+			var ms runtime.MemStats
+			runtime.ReadMemStats(&ms)
+			if base.Sys+(2<<30) < ms.Sys {
+				return 1
+			}
+		}
+	}
 }
